@@ -52,6 +52,8 @@ def cone(rel):
             continue
         path = os.path.join(COQ, r)
         if not os.path.exists(path):
+            if r.startswith('Gen' + os.sep):
+                seen.add(r)          # generated file not produced yet: still part of the cone
             continue
         seen.add(r)
         with open(path) as f:
@@ -62,12 +64,26 @@ def cone(rel):
     return seen
 
 
+def gen_needed(rel):
+    """names of the Gen/<Name>.v files in the dependency cone of coq/<rel> (only those are
+    regenerated, so that concurrent checks against different trees do not disturb each other)"""
+    out = set()
+    for f in cone(rel):
+        d, b = os.path.split(f)
+        if d == 'Gen':
+            out.add(os.path.splitext(b)[0])
+    # Gen files that do not exist yet cannot be found through the cone of their dependants' text only
+    return out or None
+
+
 def lint(files=None):
     """no Admitted/Axiom/... in the given files (default: whole development), outside comments"""
     bad = []
     paths = ([os.path.join(COQ, f) for f in sorted(files)] if files is not None
              else glob.glob(os.path.join(COQ, '**', '*.v'), recursive=True))
     for path in paths:
+        if not os.path.exists(path):
+            continue
         with open(path) as f:
             body = strip_comments(f.read())
         for ln, line in enumerate(body.splitlines(), 1):
@@ -173,7 +189,7 @@ def build_props(prop):
     """Build Props/<prop>.vo.  Returns dict(ok, obligations, discharged, failed, log,
     assumptions, translate_errors)."""
     with Lock():
-        terr = translate.run()
+        terr = translate.run(gen_needed(os.path.join('Props', prop + '.v')))
         gen_makefile()
         t0 = time.time()
         rc, out = make([f'Props/{prop}.vo'])
@@ -281,6 +297,7 @@ class Runner:
     def __init__(self, area):
         self.area = area
         with Lock():
+            translate.run(gen_needed(os.path.join(area, 'Run.v')))
             gen_makefile()
             self.exe = build_runner(area)
         self.p = None
